@@ -47,16 +47,16 @@ def tp_case(text_units, train_units, ti, di, family):
 
 # ---- PUDDLE ----
 
-def puddle_case(text_units, train_units, window, byfreq, nfolds, family):
+def puddle_case(text_units, train_units, window, byfreq, nfolds, family, njobs=1):
     text = gens.lines(text_units)
     train = None if train_units is None else gens.lines(train_units)
     valid = window >= 1 and (train is not None and len(train) > 0 or 1 <= nfolds <= len(text)) and all(text_units)
 
     def impl():
         return call_impl(lambda: list(puddle.segment(list(text), train_text=None if train is None else list(train),
-                                                     window=window, by_frequency=byfreq, nfolds=nfolds, njobs=1)))
+                                                     window=window, by_frequency=byfreq, nfolds=nfolds, njobs=njobs)))
     return dict(op=1101, arg=[text2j(text), [] if train is None else [text2j(train)], window, int(byfreq), nfolds],
-                site='puddle.segment', desc={'text': text, 'train': train, 'window': window, 'by_frequency': byfreq, 'nfolds': nfolds, 'family': family},
+                site='puddle.segment', desc={'text': text, 'train': train, 'window': window, 'by_frequency': byfreq, 'nfolds': nfolds, 'njobs': njobs, 'family': family},
                 impl=impl, dec=lambda w: decode_result(w, j2text),
                 oracle=aligned_oracle(text_units) if valid else None,
                 nontrivial=lambda m: m[0] == 'raise' or any(' ' in u for u in m[1]))
@@ -94,6 +94,13 @@ def dibs_case(rng, family):
         test_trees = [sl.rand_tree(rng, other, maxsyll=2, maxphones=2) for _ in range(rng.randint(1, 3))]
         family += '-disjoint'
     test_units = [[u for w in t for u in c10.units_of_word(w, level)] for t in test_trees]
+    if ' ' not in sep[2] and rng.random() < 0.3:
+        # a unit of the text to segment spelled like the word separator of the TRAINING text (or containing it): a unit
+        # like any other
+        k = rng.randrange(len(test_units))
+        test_units[k] = list(test_units[k])
+        test_units[k].insert(rng.randint(0, len(test_units[k])), rng.choice([sep[2], sep[2] + 'a', 'a' + sep[2]]))
+        family += '-unit-like-wordsep'
     kind = rng.choice(c10.KINDS)
     thr = Fraction(rng.randint(0, 8), 8)
     pwb = rng.choice([None, Fraction(0), Fraction(1, 4), Fraction(1)])
@@ -297,6 +304,29 @@ def main():
             ck.count('oracle_level:' + c['desc']['level'])
             ck.count('oracle_sep:' + repr(c['desc']['sep']))
             cases.append(c)
+    # PUDDLE: every pair (fold count, job count) up to 6 x 4 on one text (jobs that do not divide the folds, more jobs than folds)
+    tu12 = [[rng.choice(['a', 'b', 'uː', 'ng']) for _ in range(rng.randint(1, 5))] for _ in range(12)]
+    for nfolds in range(1, 7):
+        for njobs in range(2, 5):
+            cases.append(puddle_case(tu12, None, 2, nfolds % 2 == 0, nfolds, 'puddle-folds-x-jobs', njobs=njobs))
+    # very long utterances (thousands of units, more than a thousand words found): no segmenter may depend on the depth
+    # of the call stack
+    long_words = [['a', 'b'], ['c'], ['b', 'a', 'c']]
+    long_utt = [u for i in range(1300) for u in long_words[i % 3]]
+    # (PUDDLE: the extracted model is too slow at this size; the implementation's answer is judged by the alignment oracle)
+    for c in (puddle_case([long_utt, ['a', 'b', 'c']], [['a', 'b'], ['c'], ['b', 'a', 'c'], ['a', 'b'], ['c'], ['b', 'a', 'c']], 1, False, 5, 'long-utterance'),
+              puddle_case([long_utt[:2400], ['c', 'a', 'b']], None, 2, True, 1, 'long-utterance')):
+        out = c['impl']()
+        why = ('puddle.segment raised ' + out[1]) if out[0] != 'ok' else c['oracle'](out)
+        ck.case('long-utterance-puddle:%d' % len(c['desc']['text'][0]), True, sample={'units': len(c['desc']['text'][0].split()), 'family': 'long-utterance'})
+        ck.count('family:long-utterance')
+        if why:
+            d = dict(c['desc'])
+            d['text'] = [t[:60] + ' ... (%d units)' % len(t.split()) for t in d['text']]
+            ck.violation({'site': 'puddle.segment', 'input': d}, 'property fails on the implementation: ' + why)
+    cases.append(tp_case([long_utt, ['a', 'b']], None, 0, 0, 'long-utterance'))
+    cases.append(tp_case([long_utt], [['a', 'b', 'c'], ['b', 'a', 'c', 'c']], 1, 2, 'long-utterance'))
+    cases.append(baseline_case([long_utt], Fraction(1, 3), 5, 'long-utterance'))
     # DiBS
     for k in range(250 * scale):
         c = dibs_case(rng, 'dibs-trees')
